@@ -4,11 +4,16 @@
 //! single token and guarantees that `unpark` before `park` makes the next `park` return
 //! immediately, so no second atomic state machine is needed here.
 
+#[cfg(not(grevm_verif))]
 use std::{
     sync::OnceLock,
     thread::{self, Thread},
     time::Duration,
 };
+#[cfg(grevm_verif)]
+use crate::verif::sync::thread::{self, Thread};
+#[cfg(grevm_verif)]
+use std::{sync::OnceLock, time::Duration};
 
 /// A single-consumer notification slot.
 ///
